@@ -90,6 +90,17 @@ fn check_eq_ops(c: &mut Case, b: &BitVec<Vec<usize>>, m: &[bool], trace: &dyn Fn
     c.check("to_owned", o == *b && o.iter().collect::<Vec<_>>() == m, || format!("to_owned differs; {}", trace()));
     let cl = b.clone();
     c.check("clone", cl == *b && cl.len() == m.len(), || format!("clone differs; {}", trace()));
+    // clone_from into destinations that are shorter, longer and of the same length, then use the copy
+    for (k, dl) in [m.len() / 2, m.len() + 70, m.len(), 0].into_iter().enumerate() {
+        let mut d = BitVec::with_value(dl, k % 2 == 0);
+        d.clone_from(b);
+        let got: Vec<bool> = if d.len() == m.len() { d.iter().collect() } else { vec![] };
+        c.check("clone_from", d.len() == m.len() && got == m && d == *b, || format!("clone_from into a vector of {} bits gives len {} (model {}), equal to the source: {}; {}", dl, d.len(), m.len(), d == *b, trace()));
+        if d.len() == m.len() {
+            d.push(true);
+            c.check("clone_from", d.len() == m.len() + 1 && d.get(m.len()) && d.iter().take(m.len()).collect::<Vec<bool>>() == m, || format!("push after clone_from (destination had {} bits) disturbs the copy; {}", dl, trace()));
+        }
+    }
 }
 
 fn conversions(c: &mut Case, b: BitVec<Vec<usize>>, m: &[bool], trace: &dyn Fn() -> String) -> BitVec<Vec<usize>> {
